@@ -187,3 +187,44 @@ func extractWiring() {
 	addFact("wiringOneNodeID", "Bool", boolLean(allSame(id, w.arg("wasp.NewState", 0), w.arg("distributed.NewState", 0), w.arg("wasp.SchedulePublishes", 0), w.arg("wasp.NewNodeMemberManager", 0), dist["ID"])),
 		"every component is created with the same node id")
 }
+
+// the credential stores the harness puts behind the connection manager (auth.StaticHandler / auth.FileHandler, built from
+// literal arguments) are the ones the node builds: getAuthHandler hands the configured strings over unchanged, and main
+// hands its result to the connection manager
+func extractAuthWiring() {
+	p := parse("cmd/wasp/auth.go")
+	if p == nil {
+		return
+	}
+	var fd *ast.FuncDecl
+	for _, d := range p.file.Decls {
+		if f, ok := d.(*ast.FuncDecl); ok && f.Name.Name == "getAuthHandler" && f.Body != nil {
+			fd = f
+		}
+	}
+	if fd == nil {
+		failf("cmd/wasp/auth.go: getAuthHandler not found")
+		return
+	}
+	w := collectWiring(fd)
+	verbatim := func(arg, key string) bool { return arg == `config.GetString("`+key+`")` }
+	ok := len(w.calls["auth.StaticHandler"]) == 1 && len(w.calls["auth.StaticHandler"][0]) == 2 &&
+		verbatim(w.calls["auth.StaticHandler"][0][0], "authentication-provider-static-username") &&
+		verbatim(w.calls["auth.StaticHandler"][0][1], "authentication-provider-static-password") &&
+		len(w.calls["auth.FileHandler"]) == 1 && len(w.calls["auth.FileHandler"][0]) == 1 &&
+		verbatim(w.calls["auth.FileHandler"][0][0], "authentication-provider-file-path")
+	// main: the handler returned by getAuthHandler is the connection manager's first argument
+	handed := false
+	if m := parse("cmd/wasp/main.go"); m != nil {
+		for _, d := range m.file.Decls {
+			if f, isFn := d.(*ast.FuncDecl); isFn && f.Body != nil {
+				mw := collectWiring(f)
+				if cs := mw.calls["wasp.NewConnectionManager"]; len(cs) == 1 && len(cs[0]) > 0 && mw.defs[cs[0][0]] == "getAuthHandler" {
+					handed = true
+				}
+			}
+		}
+	}
+	addFact("authConfigVerbatim", "Bool", boolLean(ok && handed),
+		"getAuthHandler passes the configured user name, password and file path to auth.StaticHandler / auth.FileHandler unchanged, and its result is the connection manager's authentication handler")
+}
